@@ -60,7 +60,7 @@ def dct(d: Dict[str, Any], layer: str = "") -> str:
         mask = d.get("mask")
         return X("DIAG-CODED-TYPE", T("BIT-LENGTH", d["bits"]),
                  T("BIT-MASK", None if mask is None else format(mask, "X")),
-                 xsi_type="STANDARD-LENGTH-TYPE", IS_CONDENSED=(True if d.get("condensed") else None), **common)
+                 xsi_type="STANDARD-LENGTH-TYPE", IS_CONDENSED=(True if d.get("condensed") else (False if d.get("condensed") is False else None)), **common)
     if k == "MINMAX":
         return X("DIAG-CODED-TYPE", T("MAX-LENGTH", d.get("max")), T("MIN-LENGTH", d["min"]),
                  xsi_type="MIN-MAX-LENGTH-TYPE", TERMINATION=d["term"], **common)
@@ -159,8 +159,10 @@ def dop_any(d: Dict[str, Any], layer: str) -> (str, str):
         dtcs = [X("DTC", names(t["name"]), T("TROUBLE-CODE", t["code"]), T("DISPLAY-TROUBLE-CODE", t.get("display", "P%04X" % t["code"])),
                   T("TEXT", t.get("text", "dtc " + t["name"])), T("LEVEL", t.get("level")), ID=oid(layer, "DTC." + t["name"]))
                 for t in d["dtcs"]]
+        linked = [X("LINKED-DTC-DOP", X("NOT-INHERITED-DTC-SNREFS", *[X("NOT-INHERITED-DTC-SNREF", SHORT_NAME=n) for n in ln.get("not_inherited", [])])
+                    if ln.get("not_inherited") else "", X("DTC-DOP-REF", ID_REF=oid(layer, ln["dop"]))) for ln in d.get("linked", [])]
         return "DTC-DOPS", X("DTC-DOP", nm, dct(d["dct"], layer), phys_type(d.get("phys", "A_UINT32")),
-                             compu_method(d.get("cm", IDENTICAL)), X("DTCS", *dtcs), ID=i)
+                             compu_method(d.get("cm", IDENTICAL)), X("DTCS", *dtcs), X("LINKED-DTC-DOPS", *linked) if linked else "", ID=i)
     if k == "struct":
         return "STRUCTURES", X("STRUCTURE", nm, T("BYTE-SIZE", d.get("byte_size")),
                                X("PARAMS", *[param(p, layer, d["name"]) for p in d["params"]]), ID=i)
